@@ -154,6 +154,16 @@ CLAIMED['C18'] = dict(
     note='Coq kernel; no axioms; the kernel TCP stack and CPython socket objects appear in the model as the event list and the three open/closed flags (assumptions recorded in '
          'the evidence); the behaviour before the three repairs of this tree is kept as refuted theorems.',
     technique='Coq proof (induction over the event list with a what-is-still-owed invariant; reuse of the tokenizer theorems) + model/implementation correspondence over real sockets', design='5/C18')
+CLAIMED['C10'] = dict(
+    text='Theorems over a model of threads using one port at the granularity of the accesses to what they share (lock acquire/release, deque truth test / popleft / append, one device '
+         'write per byte, device read into the stream parser, sleep): for ANY number of threads, ANY programs of send / receive(block) / poll / iter_pending and ANY schedule (list of '
+         'thread ids of any length), on an EchoPort, a one-lock device port and the IOPort wrapper (two locks): no call raises; received ++ queued is exactly the messages in the '
+         'order their senders obtained the port (device: the complete ones among the bytes read - never mixed byte-wise), each once; every sender\'s messages keep their order. '
+         'One step invariant, lifted over the schedule by induction. The tie runs REAL threads on the real ports.py under a deterministic scheduler (yield points = the same '
+         'accesses) and replays every executed schedule on the model; small programs get every schedule with at most 2 (thorough: 3) preemptions.',
+    note='Coq kernel; no axioms; atomicity of deque/RLock methods under the GIL and "nothing shared is touched between yield points" are assumptions; MultiPort (fan-in/fan-out) and the '
+         'copy-on-send clause are checked on the real threads under explored schedules against the statement only (not modelled); the behaviour without the lock is a refuted theorem.',
+    technique='Coq proof (step invariant preserved by every thread step, induction over the schedule) + model/implementation correspondence on systematically explored schedules', design='5/C10')
 NOT_YET = {}
 ALL = ['C%02d' % i for i in range(1, 21)]
 
